@@ -352,7 +352,10 @@ class Schedule:  # 0404
             return payload_set
 
         if payload[SZ_TOTAL_FRAGS] != _len(payload_set):  # sched has changed
-            return init_payload_set(payload)
+            payload_set = init_payload_set(payload)
+            if None not in payload_set:  # a one-fragment schedule is complete at once
+                self._proc_payload_set(payload_set)
+            return payload_set
 
         payload_set[payload[SZ_FRAG_NUMBER] - 1] = payload
         if None in payload_set or self._proc_payload_set(
